@@ -39,6 +39,7 @@ def obs1 (s : NState) (q : String) : String :=
       let es := utxoOf L x
       let es := sortBy (fun (a b : UEntry) => a.txid < b.txid || (a.txid == b.txid && a.idx < b.idx)) es
       fmtList (es.map fun e => s!"{natToHex e.txid}:{e.idx}:{e.value}")
+    else if k = 'b' then toString (balanceOf L x)
     else if k = 't' then
       match txHeight L x with
       | some h => toString h
@@ -75,6 +76,9 @@ def step (s : NState) : List String → NState × String
       let (s', r) := processBlock s { b with bits := bits }
       (s', s!"{replyStr r} {s'.tip.height} {natToHex s'.tip.id}")
     | _, _ => (s, "bad-op")
+  | ["restart"] =>
+    let s' := restart s
+    (s', s!"ok {s'.tip.height} {natToHex s'.tip.id}")
   | "submit" :: ts =>
     match pTx ts with
     | some (tx, []) =>
